@@ -309,13 +309,48 @@ func c02Root(w *World, r *Report) {
 	npa := w.Method("xpath", "PathStack", "NewPathFromActual")
 	afd, ap := w.FuncDecl(npa)
 	deep := false
-	push := w.Method("xpath", "PathStack", "PushPath")
-	for _, ce := range allCallsTo(ap, afd.Body, push) {
-		if inner, ok := ast.Unparen(ce.Args[0]).(*ast.CallExpr); ok {
-			if c := calleeOf(ap, inner); c != nil && nm(c) == "DeepCopy" {
-				deep = true
+	_ = ap
+	// what NewPathFromActual puts on the stack is a DeepCopy of the top path (or, for an empty stack, a fresh path)
+	if af := w.SSAFunc(npa); af != nil {
+		nPush := 0
+		allOK := true
+		var isCopyOrFresh func(v ssa.Value, d int) bool
+		isCopyOrFresh = func(v ssa.Value, d int) bool {
+			if d > 4 {
+				return false
+			}
+			switch x := v.(type) {
+			case *ssa.Call:
+				if g := x.Call.StaticCallee(); g != nil && nm(g) == "DeepCopy" {
+					deep = true
+					return true
+				}
+				if x.Call.IsInvoke() && nm(x.Call.Method) == "DeepCopy" {
+					deep = true
+					return true
+				}
+			case *ssa.Alloc:
+				return true
+			case *ssa.Phi:
+				for _, e := range x.Edges {
+					if !isCopyOrFresh(e, d+1) {
+						return false
+					}
+				}
+				return true
+			}
+			return false
+		}
+		for _, ev := range pathStackPushes(w) {
+			if ev.fn != af {
+				continue
+			}
+			nPush++
+			if !isCopyOrFresh(ev.val, 0) {
+				allOK = false
 			}
 		}
+		deep = deep && allOK && nPush > 0
 	}
 	r.Check(deep, "R02.2", "PathStack.NewPathFromActual", afd.Pos(), "pushes a DeepCopy of the top path", "the predicate/operand path aliases the path of the enclosing step: steps added for an operand would change the outer path")
 	// current(): CodePathSetCurrent closure pops and installs a new relative path
